@@ -13,6 +13,8 @@ Decided:
   R5 the configured identifier is chosen with the authorization's wildcard flag (read, passed, compared) and the hooks
      receive that resolved identifier;
   R6 reverse-DNS names of IP identifiers: in-addr.arpa / ip6.arpa, reversed order, low nibble first;
+  R9 what `hooks succeeded` means: call_challenge_hooks Ok <= hooks::call Ok <= every call_single Ok <= exit status success() or
+     allow_failure (the status rule is shared with C10.R2);
   R7 clean-up: every validated challenge's hook data is handed to call_challenge_hooks_clean with only is_clean_hook
      changed, after the authorization poll succeeded.
 """
@@ -21,7 +23,7 @@ import re
 from ..absint import NONE, Interp, Val, marker, ok, run, some, struct_val, variant
 from ..flow import arg_origins, origins
 from ..mir import op_const, op_local, try_edges
-from ..util import POLL, agg_assigns, call_true_false_edges, polls, result_return_kinds, unreachable_without, where
+from ..util import POLL, agg_assigns, enum_edges, call_true_false_edges, polls, result_return_kinds, unreachable_without, where
 from . import crypto_tables as ct
 
 LEVEL = "other"
@@ -83,36 +85,44 @@ def check(ctx):
         pr = arg_origins(h, 2)
         ctx.require(R1, any(x.is_(SC + "::get_proof") for x in pr.calls), h.where(), "the hooks receive challenge.get_proof(..)", [RC, "hook-proof"])
 
+    R9 = ctx.rule("R9", "`the hooks succeeded` means every hook process exited successfully (or may fail): call_challenge_hooks -> hooks::call -> call_single's status test")
+    hb0 = prog.async_body(CCH)
+    okb0, errb0, fwd0 = result_return_kinds(hb0)
+    hc0 = hb0.calls_to("acmed::hooks::call")
+    oke0 = [(t["bb"], tg) for c in hc0 for t in try_edges(hb0, [c.dest["l"]]) if not t["adt"].endswith("Poll") for tg in t["ok"]]
+    good, hit = unreachable_without(hb0, okb0, removed_edges=oke0)
+    ctx.require(R9, bool(oke0) and good, hc0[0].where() if hc0 else "-", "call_challenge_hooks returns Ok only on the success edge of hooks::call", [CCH, "hook-result-ignored"])
+    cb0 = prog.async_body("acmed::hooks::call")
+    okb1, errb1, fwd1 = result_return_kinds(cb0)
+    for c in cb0.calls_to("acmed::hooks::call_single"):
+        errs = [tg for t in try_edges(cb0, [c.dest["l"]]) if not t["adt"].endswith("Poll") for tg in t["err"]]
+        ctx.require(R9, bool(errs) and all(not (set(okb1) & cb0.reachable([e])) for e in errs), c.where(), "a failing hook makes hooks::call fail", ["acmed::hooks::call", "failure-swallowed"])
+    from .c10 import status_rule
+    status_rule(ctx, R9)
+
     R2 = ctx.rule("R2", "no hook for an authorization that is already valid; other non-pending statuses are errors; challenge selection is the identity table")
-    eqs = [c for c in b.calls if c.fn in ("core::cmp::PartialEq::eq", "core::cmp::PartialEq::ne") and c.bb in b.live_blocks() and (AUTH, "status") in arg_origins(c, 0).fields]
-    ctx.floor(R2, "comparisons of auth.status", len(eqs), 2)
-    seen = {}
-    for c in eqs:
-        cv = None
-        for a in c.args:
-            sl = origins(b, a)
-            for cc in sl.consts:
-                if cc.get("adt", "").endswith("AuthorizationStatus") or str(cc.get("pp", "")).startswith(AST):
-                    cv = cc.get("variant") or str(cc.get("pp")).rsplit("::", 1)[1]
-        t, f = call_true_false_edges(b, c)
-        is_ne = c.fn.endswith("::ne")
-        seen[(cv, "ne" if is_ne else "eq")] = (c, t, f)
-    v = seen.get(("Valid", "eq"))
-    pnd = seen.get(("Pending", "ne"))
-    ctx.require(R2, v is not None, "%s:%s" % (b.file, b.line), "auth.status == Valid is tested", [RC, "valid-test"])
-    ctx.require(R2, pnd is not None, "%s:%s" % (b.file, b.line), "auth.status != Pending is tested", [RC, "pending-test"])
-    if v:
-        c, t, f = v
-        good, hit = unreachable_without(b, [h.bb for h in hooks] + [r.bb for r in ready], removed_edges=f, start=c.bb)
-        ctx.require(R2, bool(f) and good, c.where(), "hooks / ready POST are reachable only when the authorization is not already valid", [RC, "hooks-for-valid"])
-    if pnd:
-        c, t, f = pnd
-        good, hit = unreachable_without(b, [h.bb for h in hooks], removed_edges=f, start=c.bb)
-        ctx.require(R2, bool(f) and good, c.where(), "hooks run only for a pending authorization", [RC, "hooks-non-pending"])
-        okb, errb, fwd = result_return_kinds(b)
-        for (sb, tg) in t:
-            r = b.reachable([tg], removed_nodes=errb)
-            ctx.require(R2, not (set(b.return_blocks()) & r) and not ({h.bb for h in hooks} & b.reachable([tg])), where(b, sb), "any other status ends the attempt with an error", [RC, "non-pending-not-error"])
+    # the status tests are read per AuthorizationStatus variant, whatever their form (`==`/`!=` chains, `match`, `if let`):
+    # keep only the edges consistent with `auth.status == v` and look at what stays reachable from the tests
+    okb, errb, fwd = result_return_kinds(b)
+    n_tests = 0
+    for v in prog.adt_variants(AST):
+        rem, nt = enum_edges(b, (AUTH, "status"), v)
+        n_tests = max(n_tests, nt)
+        tests = sorted({e[0] for e in rem})
+        starts = sorted({s_ for t_ in tests for s_ in b.succ[t_] if (t_, s_) not in set(map(tuple, rem))})
+        reach = b.reachable(starts, removed_edges=rem) if starts else set()
+        hooks_hit = [h for h in hooks if h.bb in reach]
+        ready_hit = [r_ for r_ in ready if r_.bb in reach]
+        at = where(b, tests[0]) if tests else "%s:%s" % (b.file, b.line)
+        if v == "Pending":
+            ctx.require(R2, bool(tests) and bool(hooks_hit), at, "a pending authorization reaches the challenge hooks", [RC, "pending-test"])
+        elif v == "Valid":
+            ctx.require(R2, bool(tests) and not hooks_hit and not ready_hit, at, "hooks / ready POST are reachable only when the authorization is not already valid", [RC, "hooks-for-valid"])
+        else:
+            ctx.require(R2, bool(tests) and not hooks_hit, at, "hooks run only for a pending authorization (status %s)" % v, [RC, "hooks-non-pending"])
+            r2 = b.reachable(starts, removed_nodes=errb, removed_edges=rem) if starts else set()
+            ctx.require(R2, bool(tests) and not (set(b.return_blocks()) & r2), at, "any other status (%s) ends the attempt with an error" % v, [RC, "non-pending-not-error"])
+    ctx.floor(R2, "tests of auth.status", n_tests, 1)
     eqk = [k for k in prog.bodies if k.startswith("<" + CH + " as core::cmp::PartialEq<" + SC + ">>::eq")]
     ctx.floor(R2, "PartialEq<structs::Challenge> for Challenge", len(eqk), 1)
     if eqk:
